@@ -130,6 +130,15 @@ class C13Executor(SymListMixin, ET.ETreeMixin, Executor):
             return VStr(PYSTR_TD(v.t))
         return super().to_str(st, v, formatted)
 
+    # ---- identity of elements of a CONCRETE tree shape: every node is its own object (Element defines no __eq__, so == is identity too);
+    # without this `element is not root` was an unconstrained equation between two element constants
+    def compare(self, st, op, a, b, node):
+        if op in ("Is", "IsNot", "Eq", "NotEq"):
+            na, nb = ET.node_of(a), ET.node_of(b)
+            if na is not None and nb is not None:
+                return [(st, VBool((na is nb) == (op in ("Is", "Eq"))))]
+        return super().compare(st, op, a, b, node)
+
     # ---- collections.deque used as a work list: a list with popleft() / appendleft()
     def call(self, st, f, args, kwargs, node):
         if isinstance(f, VFunc) and f.how == "ext" and f.a == "collections.deque" and len(args) <= 1 and not kwargs:
@@ -147,56 +156,74 @@ class C13Executor(SymListMixin, ET.ETreeMixin, Executor):
         if name == "appendleft" and o.kind == "list" and o.data is not None and len(args) == 1:
             return super().list_method(st, obj, "insert", [VInt(0), args[0]], kwargs, node)
         if name == "sort" and o.kind == "list" and o.data is not None and not args and set(kwargs) <= {"key", "reverse"}:
-            from fractions import Fraction
-
-            class _NoOrder:
-                def __lt__(self, other):
-                    raise TypeError("'<' not supported")
-                __gt__ = __le__ = __ge__ = __lt__
-
-                def __eq__(self, other):
-                    return self is other
-                __hash__ = object.__hash__
-
-            def key_of(v):
-                if isinstance(v, (VInt, VStr, VBool)):
-                    c = v.const()
-                    return c if c is not None else None
-                if isinstance(v, VReal):
-                    t = z3.simplify(v.t)
-                    return Fraction(t.numerator_as_long(), t.denominator_as_long()) if z3.is_rational_value(t) else None
-                if isinstance(v, VTuple):
-                    ks = [key_of(x) for x in v.items]
-                    return None if any(k is None for k in ks) else tuple(ks)
-                if isinstance(v, (VExt, VRef)) or v is NONE:
-                    return _NoOrder()
-                return None
-            keys, cur = [], st
-            for item in o.data:
-                kv = item
-                if "key" in kwargs:
-                    r = self.call(cur, kwargs["key"], [item], {}, node)
-                    if len(r) != 1:
-                        keys = None
-                        break
-                    cur, kv = r[0]
-                k = key_of(kv)
-                if k is None:
-                    keys = None
-                    break
-                keys.append(k)
-            rev = kwargs.get("reverse")
-            if keys is not None and (rev is None or (isinstance(rev, VBool) and rev.const() is not None)):
-                try:
-                    order = sorted(range(len(keys)), key=lambda i: keys[i], reverse=bool(rev.const()) if rev is not None else False)
-                except TypeError:
-                    self.raise_in(cur, self.mk_exc("TypeError"))
-                    return []
+            r = self._sorted_items(st, list(o.data), kwargs, node)
+            if r == "raised":
+                return []
+            if r is not None:
+                cur, items = r
                 self._check_not_frozen(cur, obj.ref, node)
                 self.note_store(cur, obj.ref, node)
-                cur.wobj(obj.ref).data = [o.data[i] for i in order]
+                cur.wobj(obj.ref).data = items
                 return [(cur, NONE)]
         return super().list_method(st, obj, name, args, kwargs, node)
+
+    def _sorted_items(self, st, data, kwargs, node):
+        """stable sort of `data` (concrete length) by concrete keys -> (state, sorted items) | "raised" (TypeError, as CPython) | None (not modelled)"""
+        from fractions import Fraction
+
+        class _NoOrder:
+            def __lt__(self, other):
+                raise TypeError("'<' not supported")
+            __gt__ = __le__ = __ge__ = __lt__
+
+            def __eq__(self, other):
+                return self is other
+            __hash__ = object.__hash__
+
+        def key_of(v):
+            if isinstance(v, (VInt, VStr, VBool)):
+                c = v.const()
+                return c if c is not None else None
+            if isinstance(v, VReal):
+                t = z3.simplify(v.t)
+                return Fraction(t.numerator_as_long(), t.denominator_as_long()) if z3.is_rational_value(t) else None
+            if isinstance(v, VTuple):
+                ks = [key_of(x) for x in v.items]
+                return None if any(k is None for k in ks) else tuple(ks)
+            if isinstance(v, (VExt, VRef)) or v is NONE:
+                return _NoOrder()
+            return None
+        keys, cur = [], st
+        for item in data:
+            kv = item
+            if "key" in kwargs and kwargs["key"] is not NONE:
+                r = self.call(cur, kwargs["key"], [item], {}, node)
+                if len(r) != 1:
+                    return None
+                cur, kv = r[0]
+            k = key_of(kv)
+            if k is None:
+                return None
+            keys.append(k)
+        rev = kwargs.get("reverse")
+        if not (rev is None or (isinstance(rev, VBool) and rev.const() is not None)):
+            return None
+        try:
+            order = sorted(range(len(keys)), key=lambda i: keys[i], reverse=bool(rev.const()) if rev is not None else False)
+        except TypeError:
+            self.raise_in(cur, self.mk_exc("TypeError"))
+            return "raised"
+        return cur, [data[i] for i in order]
+
+    def b_sorted(self, st, args, kwargs, node):
+        items = self.concrete_items(st, args[0]) if len(args) == 1 else None
+        if items is not None and set(kwargs) <= {"key", "reverse"}:
+            r = self._sorted_items(st, items, kwargs, node)
+            if r == "raised":
+                return []
+            if r is not None:
+                return [(r[0], self.new_list(r[0], r[1]))]
+        return super().b_sorted(st, args, kwargs, node)
 
     # ---- exact %-formatting / str.format for integer and string fields; anything else is an over-approximation
     def _fmt_field(self, st, v, spec):
